@@ -132,6 +132,45 @@ def d2():
     return out
 
 
+def numpy_valued_comparisons():
+    """comparisons whose operands come out of exp / an array mean (numpy scalars in the library), counted and scaled: arithmetic on
+    truth values is arithmetic on 0 and 1"""
+    out = []
+    srcs = [["un", "exp", A], ["un", "exp", B], AMEAN, ["un", "sqrt", ["un", "exp", C]]]
+    for cop in ("<", "<=", ">", ">=", "==", "!="):
+        for x in srcs:
+            for y in srcs:
+                l, r = ["bin", cop, x, N()], ["bin", cop, y, Z()]
+                out.append(["bin", "+", l, r])
+                out.append(["bin", "*", ["num", "n"], ["bin", "+", l, r]])
+                out.append(["bin", "-", l, r])
+                out.append(["bin", "+", ["bin", "+", l, r], ["bin", cop, x, M()]])
+    return out
+
+
+def ladder():
+    """the same shapes at growing size: long chains whose right operand is a difference / a quotient, and right-nested chains"""
+    out = []
+    for n in (5, 40, 70, 100, 130):
+        s = A
+        p = N()
+        for i in range(n):
+            s = ["bin", "+", s, [A, B, C][i % 3]]
+            p = ["bin", "*", p, [N(), Q(), ["num", "n"]][i % 3]] if i < 40 else p
+        out.append(["bin", "-", s, ["bin", "-", B, C]])
+        out.append(["bin", "-", ["bin", "-", B, C], s])
+        out.append(["bin", "/", s, ["bin", "/", B, C]])
+        out.append(["bin", "/", p, ["bin", "/", B, C]])
+        r = A
+        q = A
+        for i in range(n):
+            r = ["bin", "-", [B, C, A][i % 3], r]
+            q = ["bin", "/", [B, C, A][i % 3], q]
+        out.append(r)
+        out.append(q)
+    return out
+
+
 def d3():
     mid = wrap_all(reps(False), [C, N()])
     return wrap_all(mid, [G, N()])
@@ -430,7 +469,7 @@ def _work(arg):
 
 
 def run(ctx):
-    trees = d1_all() + d2()
+    trees = d1_all() + d2() + numpy_valued_comparisons() + ladder()
     if ctx.tier == "thorough":
         trees += d3()
     seen = set()
@@ -457,7 +496,10 @@ def run(ctx):
                 if st == "rejected":
                     rej_kinds[detail] = rej_kinds.get(detail, 0) + 1
                 if st == "VIOL":
-                    ctx.violation("C02/value/%s/%s" % (detail["context"], skeleton(tree)),
+                    sk = skeleton(tree)
+                    if len(sk) > 140:
+                        sk = sk[:50] + "...(%d chars)..." % len(sk) + sk[-50:]
+                    ctx.violation("C02/value/%s/%s" % (detail["context"], sk),
                                   {"tree": tree, "binding": detail["binding"]}, detail)
             if any_ok:
                 nontrivial += 1
